@@ -205,6 +205,11 @@ pub enum Event {
     CrashPanic { cut: usize, msg: String },
     #[serde(rename = "cancel")]
     Cancel { n: usize, polls: usize },
+    /// the executor of node `n` is armed to panic when it next runs
+    #[serde(rename = "arm")]
+    Arm { n: usize },
+    #[serde(rename = "disarm")]
+    Disarm,
     /// a controlled schedule / watchdog did not complete
     #[serde(rename = "hang")]
     Hang { at: usize },
